@@ -16,7 +16,8 @@ RULE = ("Hypothesis-generated parameters for each of the 12 BVLL functions (resu
         "body). Non-trivial: table with >= 2 entries, payload >= 1 octet, or a rejected frame that passed the type check. "
         "Distinct by octets."
         " Also: every message built with its parameters assigned after construction."
-        " Every message object is sent a second time.")
+        " Every message object is sent a second time."
+        " The tables a real BBMD reports (Read-BDT-Ack, Read-FDT-Ack with remaining times) compared with the reference encoder. One reduced copy of a generated shard runs with the library's debug tracing switched on (label tracing-on).")
 ASSUMPTIONS = [
     "bpverif/ref/bvlc.py transcribes Annex J.2 correctly",
     "well-formed frames with function codes >= 12 are not judged here (the statement does not cover them; C10 does)",
